@@ -243,7 +243,8 @@ class fsIndex:
 
         assert tree
 
-        if key is None:
+        if key is None or smallest_prefix != key[:6]:
+            # Every key under a later prefix is greater than `key`.
             smallest_suffix = tree.minKey()
         else:
             try:
@@ -267,7 +268,8 @@ class fsIndex:
 
         assert tree
 
-        if key is None:
+        if key is None or biggest_prefix != key[:6]:
+            # Every key under an earlier prefix is smaller than `key`.
             biggest_suffix = tree.maxKey()
         else:
             try:
